@@ -436,6 +436,21 @@ class Grammar:
                     return base[e.slice.value]
                 except Exception:
                     return Opaque("subscript")
+            if isinstance(base, (list, tuple, str)) and isinstance(e.slice, ast.Slice):
+                def cv(x):
+                    if x is None:
+                        return None
+                    v = ev(x)
+                    if isinstance(v, int):
+                        return v
+                    raise AnalysisError(f"{mi.rel}:{e.lineno}: non-constant slice bound")
+                return base[slice(cv(e.slice.lower), cv(e.slice.upper), cv(e.slice.step))]
+            if isinstance(base, (list, tuple, str)) and isinstance(e.slice, ast.UnaryOp) and \
+                    isinstance(e.slice.op, ast.USub) and isinstance(e.slice.operand, ast.Constant):
+                try:
+                    return base[-e.slice.operand.value]
+                except Exception:
+                    return Opaque("subscript")
             if contains_gnode(base):
                 raise AnalysisError(f"{mi.rel}:{e.lineno}: subscript on parser elements not modelled")
             return Opaque("subscript")
@@ -517,12 +532,87 @@ class Grammar:
             if args and isinstance(args[0], (list, tuple)):
                 return list(args[0]) if f.why.endswith("list") else tuple(args[0])
             return Opaque("list")
+        if isinstance(f, PyFunc) and f.cls_qual is None and self.returns_grammar(f):
+            return self.call_pyfunc(f, args, kw, e, mi)
         if isinstance(f, (ClassNS, PyFunc, Opaque)):
             if contains_gnode(args) or contains_gnode(list(kw.values())):
                 raise AnalysisError(f"{mi.rel}:{e.lineno}: parser element passed to an unmodelled "
                                     f"function: {unparse(e)[:80]}")
             return Opaque("call")
         raise AnalysisError(f"{mi.rel}:{e.lineno}: unmodelled call {unparse(e)[:80]}")
+
+    # ---------------------------------------------------------------- helper functions
+    def returns_grammar(self, pf: PyFunc) -> bool:
+        """Does the helper mention pyparsing constructs / grammar values at all?"""
+        env = self.envs.get(pf.mi.name, {})
+        for n in ast.walk(pf.node):
+            if isinstance(n, ast.Name) and isinstance(env.get(n.id), (PP, GNode, PPModule)):
+                return True
+        return False
+
+    class _Return(Exception):
+        def __init__(self, value):
+            self.value = value
+
+    def call_pyfunc(self, pf: PyFunc, args, kw, call, mi):
+        fn = pf.node
+        a = fn.args
+        env = dict()
+        outer = self.envs.get(pf.mi.name, {})
+        pos = [x.arg for x in a.posonlyargs + a.args]
+        defaults = list(a.defaults)
+        for i, name in enumerate(pos):
+            if i < len(args):
+                env[name] = args[i]
+            elif name in kw:
+                env[name] = kw[name]
+            else:
+                di = i - (len(pos) - len(defaults))
+                if di < 0:
+                    raise AnalysisError(f"{mi.rel}:{call.lineno}: missing argument {name} for {fn.name}()")
+                env[name] = self.eval(defaults[di], {}, outer, pf.mi, None)
+        if a.vararg:
+            env[a.vararg.arg] = tuple(args[len(pos):])
+        elif len(args) > len(pos):
+            raise AnalysisError(f"{mi.rel}:{call.lineno}: too many arguments for {fn.name}()")
+        for k, d in zip(a.kwonlyargs, a.kw_defaults):
+            if k.arg in kw:
+                env[k.arg] = kw[k.arg]
+            elif d is not None:
+                env[k.arg] = self.eval(d, {}, outer, pf.mi, None)
+        depth = getattr(self, "_call_depth", 0)
+        if depth > 8:
+            raise AnalysisError(f"{mi.rel}:{call.lineno}: helper recursion too deep in {fn.name}()")
+        self._call_depth = depth + 1
+        try:
+            self.exec_func_block(fn.body, env, outer, pf.mi)
+        except Grammar._Return as r:
+            return r.value
+        finally:
+            self._call_depth = depth
+        return None
+
+    def exec_func_block(self, body, env, outer, mi):
+        for st in body:
+            if isinstance(st, ast.Return):
+                raise Grammar._Return(self.eval(st.value, env, outer, mi, None) if st.value is not None else None)
+            if isinstance(st, ast.For):
+                it = self.eval(st.iter, env, outer, mi, None)
+                if not isinstance(it, (list, tuple, str)) or len(it) > 256:
+                    raise AnalysisError(f"{mi.rel}:{st.lineno}: loop over a non-constant sequence in a grammar helper")
+                for x in it:
+                    self.assign(st.target, x, env, outer, mi, None, st, False)
+                    self.exec_func_block(st.body, env, outer, mi)
+                continue
+            if isinstance(st, ast.If):
+                t = self.eval(st.test, env, outer, mi, None)
+                if isinstance(t, (bool, int, str, list, tuple)) or t is None:
+                    self.exec_func_block(st.body if t else st.orelse, env, outer, mi)
+                    continue
+                raise AnalysisError(f"{mi.rel}:{st.lineno}: non-constant condition in a grammar helper")
+            if isinstance(st, (ast.Expr,)) and isinstance(st.value, ast.Constant):
+                continue
+            self.exec_stmt(st, env, outer, mi, None, False)
 
     def eval_method(self, bm: BoundMethod, args, kw, e, mi, cls_qual, conditional):
         node, attr = bm.recv, bm.attr
